@@ -1090,10 +1090,12 @@ def wErrName : PyW.WErr → String
 
 /-- `langgen.build_model`: one pjs object per asset (constructor + `setattr` of the defenses: allocation), `add_asset(obj,
 asset_id=id)`; one association object per link, its two fields set to the asset objects, `add_association` -/
-def buildModelApi (m : Inst) : Except String PyM.H := do
+def buildModelApi (m : Inst) (names0 : Option (List (Option String)) := none) : Except String PyM.H := do
   let mut s : PyM.H := { name := "m" }
-  for a in m.assets do
-    let o : PyM.PyAsset := { type := a.type, name := some a.name, defenses := a.defenses }
+  for (a, k) in m.assets.zipIdx do
+    -- `names0`: the names the objects are CONSTRUCTED with (`None`: `cls()`); `add_asset` then chooses the final name
+    let nm : Option String := match names0 with | some l => (l.getD k (some a.name)) | none => some a.name
+    let o : PyM.PyAsset := { type := a.type, name := nm, defenses := a.defenses }
     match PyM.Gen.model_add_asset (PyM.newAssetObj s o) (GenXM.envOf s) s.afresh (some a.id) true with
     | .ok s' => s := GenXM.normH s'
     | .error e => throw (GenXM.pyErrName e)
@@ -1188,6 +1190,8 @@ def opGenGenerate (j : Json) : R Json := do
   let mode := (← jfieldOpt jstr j "mode").getD "api"
   let attach := (← jfieldOpt jbool j "attach").getD false
   let ana := (← jfieldOpt jbool j "calc").getD false
+  let again := (← jfieldOpt jnat j "again").getD 0
+  let names0 ← jfieldOpt (jlist (fun x => match x with | .null => pure none | _ => do pure (some (← jstr x)))) j "names0"
   let lf := (← jfieldOpt jstr j "lang_file").getD "lang.mar"
   let mf := (← jfieldOpt jstr j "model_file").getD "model.json"
   let spec := LSpec.loadPy L
@@ -1204,14 +1208,19 @@ def opGenGenerate (j : Json) : R Json := do
       | .ok g => .ok g
       | .error e => .error (wErrName e)
     else do
-      let mh ← buildModelApi m
+      let mh ← buildModelApi m names0
       let mh ← addAttackers mh m atts
       let w := { w0 with menv := GenXM.envOf mh }
       let run : Except PyW.WErr PyW.WGraph := do
         let lg ← PyW.newLanguageGraph w spec
-        let g ← PyW.newAttackGraph w lg mh
-        let g ← if attach then PyW.agAttachAttackers w g else pure g
-        if ana then PyW.agCalculate w g else pure g
+        let mut g ← PyW.newAttackGraph w lg mh
+        -- `again = k`: k further `AttackGraph(lang_graph, model)` in the same process: the node store is the one the earlier
+        -- graphs left (their objects stay), the language graph is the one the earlier graph kept; the LAST graph is returned
+        for _ in List.range again do
+          g ← PyW.newAttackGraph { w with gstore := GenX.normH g.h } g.lang_graph mh
+        if attach then g ← PyW.agAttachAttackers w g
+        if ana then g ← PyW.agCalculate w g
+        pure g
       match run with
       | .ok g => .ok g
       | .error e => .error (wErrName e)
